@@ -79,4 +79,9 @@ META = {
   "text": "Every combination of the property's quantifier is drawn with concrete offsets around the interesting boundaries; the bytes of every history are a pure function of (history, offset) so a continuation from a wrong history or offset is detected on the first delivered byte. Exploration level.",
   "note": "Up to 2 inconclusive cases per run are tolerated (a case in which the tool backs off for seconds before it hands a reader to the output). One open known finding (previous-id position beyond the switch offset validated against a current-id cache).",
  },
+ "C16": {
+  "technique": "property-based testing (rapid) over leader/follower cache pre-states (history-tree byte function) with the real gRPC leader/follower pair + enumeration of the interruption index of the transfer; oracle = follower bytes == leader history bytes, contiguity, single id",
+  "text": "Pre-states cover every relation between the two caches named by the property; each transfer is cut after every message in turn and the follower restarted, and whatever the follower then claims to hold under the leader's id is read back completely and compared with the leader's history. Exploration + enumeration of the interruption point.",
+  "note": "The harness decides that a session has quiesced by watching the follower's right edge / message counter (bounded waits); it does not own goroutine scheduling inside the pair.",
+ },
 }
